@@ -25,9 +25,12 @@ func cntF(q *Query, cur Map, o *FunctionOptions, args []any) (any, error) {
 func cntG(q *Query, cur Map, o *FunctionOptions, args []any) (any, error) {
 	cntMu.Lock()
 	callsG++
+	cntMu.Unlock()
+	v := args[0]
+	cntMu.Lock()
 	doneG++
 	cntMu.Unlock()
-	return args[0], nil
+	return v, nil
 }
 
 func cntH(q *Query, cur Map, o *FunctionOptions, args []any) (any, error) {
@@ -103,7 +106,8 @@ func H_C14_strategies() {
 		// completed when Exec returns
 		verif.Assert(callsG == n && doneG == n, "nested-spinasync-completed")
 	case 6:
-		verif.Assert(doneG == callsG, "nested-spinasync-completed")
+		// the EXISTS subquery runs once per outer row over the n rows of `<-t`
+		verif.Assert(callsG == n*n && doneG == n*n, "nested-spinasync-completed")
 	case 7:
 		verif.Assert(callsF == n && doneF == n, "nested-async-completed")
 		var want []any
